@@ -1,7 +1,7 @@
 #!/bin/bash
-# usage: confirm_seed.sh <agentdir e.g. /tmp/agents/c01/out/1> <seed-id e.g. C01-1> <property>
+# usage: confirm_seed.sh <agentdir e.g. /tmp/agents/c01/out/1> <seed-id e.g. C01-1> <property> [demo package dir, default tests]
 # Confirms in a scratch worktree: suite passes with the change, demo fails with it and passes without; archives under /verif/seeded/<seed-id>
-src=$1; id=$2; prop=$3
+src=$1; id=$2; prop=$3; pk=${4:-tests}
 export GOFLAGS=-mod=mod GOPROXY=off GOSUMDB=off GOTOOLCHAIN=local
 S=/tmp/confirm.$$; rm -rf $S; git -C /repo worktree add -f --detach $S HEAD >/dev/null 2>&1 || exit 3
 cd $S
@@ -9,11 +9,11 @@ res="{}"
 git apply "$src/patch.diff" || { echo "$id: patch does not apply"; cd /; git -C /repo worktree remove --force $S; exit 3; }
 go build ./... >/dev/null 2>&1 || { echo "$id: does not build"; cd /; git -C /repo worktree remove --force $S; exit 3; }
 suite=$(go test -vet=off -count=1 ./... 2>&1 | grep -E "^(FAIL|---)" | head -3)
-cp "$src/demo_test.go" tests/zz_seeded_demo_test.go
-fn=$(grep -o "func TestSeeded[A-Za-z0-9_]*" tests/zz_seeded_demo_test.go | head -1 | sed 's/func //')
-with=$(cd tests && go test -vet=off -count=1 -run "^$fn\$" . 2>&1 | grep -E "^(ok|FAIL|---)" | head -2 | tr '\n' ' ')
+cp "$src/demo_test.go" $pk/zz_seeded_demo_test.go
+fn=$(grep -o "func TestSeeded[A-Za-z0-9_]*" $pk/zz_seeded_demo_test.go | head -1 | sed 's/func //')
+with=$(cd $pk && go test -vet=off -count=1 -run "^$fn\$" . 2>&1 | grep -E "^(ok|FAIL|---)" | head -2 | tr '\n' ' ')
 git apply -R "$src/patch.diff"
-without=$(cd tests && go test -vet=off -count=1 -run "^$fn\$" . 2>&1 | grep -E "^(ok|FAIL|---)" | head -2 | tr '\n' ' ')
+without=$(cd $pk && go test -vet=off -count=1 -run "^$fn\$" . 2>&1 | grep -E "^(ok|FAIL|---)" | head -2 | tr '\n' ' ')
 cd /; git -C /repo worktree remove --force $S
 echo "$id: suite-with-change: ${suite:-PASS} | demo with change: $with | demo without: $without"
 if [ -z "$suite" ] && echo "$with" | grep -q FAIL && echo "$without" | grep -q "^ok"; then
